@@ -183,12 +183,17 @@ func capPreCount(swampObj swamp.Swamp, predicate func(treasureForCount) bool) (i
 	adapted := func(t treasure.Treasure) bool {
 		return predicate(t)
 	}
-	count := swampObj.CountMatchingTreasures(adapted)
 	// Cap-bearing patch flows serialise on swamp.capMu — but the swamp
 	// interface does not expose it directly. Acquire it via the
 	// public LockCapMu / UnlockCapMu accessors added on the swamp
 	// interface so the gateway can hold it for the whole batch.
+	//
+	// The lock is taken BEFORE counting: a count taken first is stale by the
+	// time the lock is acquired (a concurrent Cap-bearing batch may have pushed
+	// more records into the filter in between), and both batches would then
+	// spend the full budget and exceed the cap.
 	swampObj.LockCapMu()
+	count := swampObj.CountMatchingTreasures(adapted)
 	return count, swampObj.UnlockCapMu
 }
 
